@@ -73,9 +73,11 @@ func init() {
 
 func maxprog(h *harnessSpec) *harnessSpec { h.maximalProgress = true; return h }
 
+var twoCallers *harnessSpec
+
 func init() {
 	pkgRC := modulePath + "/lambda/rapidcore"
-	twoCallers := maxprog(cclock(hs(pkgRC, "VerifFullTwoCallersTimeout", 2, "FULL stack: the first invocation stalls, times out and is reset; a second caller arrives in each of 5 phases (at once / runtime working / reset begun / old runtime killed / after the answer); invariant at every scheduling point: nobody is admitted while the reset is in progress", "refused", "served-after-reset")))
+	twoCallers = maxprog(cclock(hs(pkgRC, "VerifFullTwoCallersTimeout", 2, "FULL stack: the first invocation stalls, times out and is reset; a second caller arrives in each of 5 phases (at once / runtime working / reset begun / old runtime killed / after the answer); invariant at every scheduling point: nobody is admitted while the reset is in progress", "refused", "served-after-reset")))
 	twoCallers.noNative = true
 	checkRegistry = append(checkRegistry, &checkSpec{
 		id: "C10", level: "other",
@@ -152,8 +154,9 @@ func init() {
 		orch(pkgRC, "VerifFullStale", 2, "FULL stack: stale-id, duplicate and normal submissions", "stale", "double", "scenario-done"),
 		orch(pkgRC, "VerifFullRespondExit", 2, "FULL stack: response delivered, then the runtime exits; next invocation", "respond-exit", "scenario-done"),
 		srvSeq("VerifC01Sequence2", 2, "Server.Invoke x2 against the stub sandbox, symbolic behaviour per invocation", "respond", "error", "crash", "respond-crash", "wrong-id"),
+		orch(pkgRC, "VerifFullTimeoutThenOK", 2, "FULL stack: an invocation following a timed-out one (deadline, body, outcome)", "timeout", "respond", "scenario-done"),
 	}
-	c01t := append(withD(c01, 3, 3000000), orch(pkgRC, "VerifFullAny2", 2, "FULL stack: any of 7 runtime behaviours for each of 2 invocations", "scenario-done"))
+	c01t := append(withD(c01, 3, 3000000), orch(pkgRC, "VerifFullAny2", 2, "FULL stack: any of 7 runtime behaviours for each of 2 invocations", "scenario-done"), twoCallers)
 	checkRegistry = append(checkRegistry, &checkSpec{id: "C01", level: "other", quick: c01, thorough: c01t, assume: orchAssume, outside: append(orchOutside, "front-end HTTP handler mapping (cmd/aws-lambda-rie) and base64 client context")})
 
 	c02 := []*harnessSpec{
@@ -271,6 +274,33 @@ func init() {
 		},
 		assume:  []string{"maps with symbolic keys are case-split on key equality by the engine", "os.LookupEnv / os.Environ stubbed by the harness (TZ, AWS_EXECUTION_ENV concrete, AWS_XRAY_DAEMON_ADDRESS symbolic presence)"},
 		outside: []string{"that the stored Runtime API address is the one the API server really listens on (rapid.Start formats it before Listen; with port 0 they differ) -- not encoded", "init-caching credential mode (covered by C18's harness)", "the kernel's environment passing"}})
+}
+
+func init() {
+	pkgSup := modulePath + "/lambda/supervisor"
+	sup := func(name string, d int, desc string, reach ...string) *harnessSpec {
+		return orch(pkgSup, name, d, desc, reach...)
+	}
+	c19 := []*harnessSpec{
+		sup("VerifC19Status1", 2, "one process, SYMBOLIC natural exit code (0..255) / terminating signal (1..31) / TERM-handler exit code, 3 reactions to TERM, one request out of {Kill, Kill past deadline, Kill unknown, Terminate, Terminate unknown}: the event carries the true status (decoded by the real syscall.WaitStatus code)", "event-exit-status", "event-signal", "terminated", "done"),
+		sup("VerifC19One2", 2, "one process: 3 TERM reactions x SIGKILL-resistant or not x forks a child into its group or not x {runs on, exits 0/1/200, dies of a signal}, 2 requests, natural exit racing with the requests", "kill-ok", "kill-timeout", "kill-already-exited", "kill-past-deadline", "kill-unknown", "kill-group", "terminate", "terminate-does-not-wait", "done"),
+		sup("VerifC19Two2", 1, "two processes at once (4 profiles each), 2 requests on either", "kill-ok", "kill-group", "terminate", "done"),
+	}
+	c19t := []*harnessSpec{
+		sup("VerifC19Status2", 2, "as Status1 with 2 requests", "event-exit-status", "event-signal", "done"),
+		sup("VerifC19One3", 2, "as One2 with 3 requests", "kill-ok", "kill-group", "done"),
+		sup("VerifC19Two2", 2, "two processes, 2 requests, <= 2 delays", "done"),
+		sup("VerifC19Two3", 1, "two processes, 3 requests", "done"),
+	}
+	for _, h := range c19t {
+		h.maxPaths = 3000000
+	}
+	checkRegistry = append(checkRegistry, &checkSpec{id: "C19", level: "other", quick: c19, thorough: c19t,
+		assume: []string{"the real LocalSupervisor (Exec incl. its Wait goroutine and status decoding, kill, Kill, Terminate) and the real syscall.WaitStatus methods are executed from go/ssa",
+			"the operating system is a harness model that replaces exactly exec.Command, (*exec.Cmd).Start/Wait, (*os.ProcessState).Sys, syscall.Getpgid, syscall.Kill: Linux wait-status encoding (exit n = n<<8, signal s = s), group-directed signals reach every unreaped member of the group, SIGKILL ends a process unless it is modelled as resisting (uninterruptible) for the whole run, a process started without Setpgid inherits the emulator's own group",
+			"'already exited' means the supervisor has observed the exit (termination channel closed); while a natural exit races with a request, either documented answer is accepted",
+			"logical clock; Kill's deadline timer fires at quiescence"},
+		outside: []string{"the real kernel (fork/exec failures, pid reuse, zombies of grand-children, signals other than TERM/KILL sent by the supervisor)", "Stop / Freeze / Thaw", "more than 2 processes or 3 requests", "counterexamples are confirmed by pinned re-execution in the engine only (a native replay would need real processes)"}})
 }
 
 // expiry: timers are not restricted to quiescence (the harness switches them with verifRaceTimers)
